@@ -54,15 +54,17 @@ EXTENDS Naturals, Sequences, FiniteSets
 CONSTANTS MaxPkt,      \* IN endpoint: maximum packet size in bytes
           WordLen,     \* bytes per stream word (4; the bounded model uses 1)
           EpIn,        \* IN endpoint number
-          Desc         \* descriptor table: sequence of [k |-> type * 256 + index, b |-> bytes]
+          Desc,        \* descriptor table: sequence of [k |-> type * 256 + index, b |-> bytes]
+          ViaWire      \* TRUE: a transaction packet is reported (tp) only after it was delivered on the wire (tpd), with the
+                       \* same fields -- the trace check; FALSE: tp events stand alone -- the bounded model
 
-VARIABLES up, rstPending, addr, cfg, req, owed, reqq, dpOpen, rxq,
+VARIABLES up, rstPending, addr, cfg, req, owed, reqq, dpOpen, rxq, tpq,
           pk, cur, infl, seqn, fc,            \* IN endpoint
           lastItp,
           gAcc, gAcked, gAddrSet, nReq, nWire, nLost,   \* ghosts
           ev
 
-vars == <<up, rstPending, addr, cfg, req, owed, reqq, dpOpen, rxq, pk, cur, infl, seqn, fc, lastItp,
+vars == <<up, rstPending, addr, cfg, req, owed, reqq, dpOpen, rxq, tpq, pk, cur, infl, seqn, fc, lastItp,
           gAcc, gAcked, gAddrSet, nReq, nWire, nLost, ev>>
 
 EPs == {0, EpIn}
@@ -83,9 +85,9 @@ DescIdx(wv) == IF \E i \in 1..Len(Desc) : Desc[i].k = wv
                THEN CHOOSE i \in 1..Len(Desc) : Desc[i].k = wv ELSE 0
 
 \* requests this specification speaks about (the standard handler implements them; everything else must be STALLed)
-GET_STATUS == 0  SET_ADDRESS == 5  GET_DESCRIPTOR == 6  SET_CONFIGURATION == 9  SET_ISOCH_DELAY == 49
+GET_STATUS == 0  SET_ADDRESS == 5  GET_DESCRIPTOR == 6  GET_CONFIGURATION == 8  SET_CONFIGURATION == 9  SET_ISOCH_DELAY == 49
 NoDataStage(r) == Standard(r) /\ r.br \in {SET_ADDRESS, SET_CONFIGURATION, SET_ISOCH_DELAY}
-Excluded(r) == Standard(r) /\ r.br \in {8, 48}       \* GET_CONFIGURATION, SET_SEL: not judged (Env never sends them)
+Excluded(r) == Standard(r) /\ r.br \in {48}          \* SET_SEL (OUT data stage): not judged (Env never sends it)
 
 \* what an IN request in the data stage must be answered with: STALL or a data packet with these bytes
 StallAns == [stall |-> TRUE, b |-> <<>>]
@@ -95,10 +97,11 @@ DataAnswer(r) ==
     ELSE IF r.br = GET_DESCRIPTOR
          THEN IF DescIdx(r.wv) = 0 THEN StallAns ELSE DataAns(Prefix(Desc[DescIdx(r.wv)].b, r.wl))
     ELSE IF r.br = GET_STATUS THEN DataAns(<<0, 0>>)
+    ELSE IF r.br = GET_CONFIGURATION THEN DataAns(<<cfg>>)        \* [USB3.2 9.4.2] the current configuration value
     ELSE StallAns
 StatusAnswer(r) ==
     IF ~Standard(r) THEN "stall"
-    ELSE IF r.br \in {GET_STATUS, GET_DESCRIPTOR, SET_ADDRESS, SET_CONFIGURATION, SET_ISOCH_DELAY} THEN "ack"
+    ELSE IF r.br \in {GET_STATUS, GET_DESCRIPTOR, GET_CONFIGURATION, SET_ADDRESS, SET_CONFIGURATION, SET_ISOCH_DELAY} THEN "ack"
     ELSE "stall"
 
 -----------------------------------------------------------------------------
@@ -129,6 +132,9 @@ PollOwes(p, s, a) == IF p # <<>> THEN DpItem(s, Head(p), a) ELSE TpItem("nrdy", 
 (* Judge: the first violated clause for event e in the current state ("ok": none).  Clauses starting with   *)
 (* env_ say that the *environment* left its assumptions (a defect of the stimulus, never of the device).    *)
 TpKind(sub) == CASE sub = 1 -> "ack" [] sub = 2 -> "nrdy" [] sub = 3 -> "erdy" [] sub = 5 -> "stall" [] OTHER -> "other"
+
+\* the fields of a host transaction packet this specification speaks about (STATUS: endpoint only)
+TpFields(e) == IF e.sub = 1 THEN <<1, e.ep, e.seq, e.nump, e.rty>> ELSE <<e.sub, e.ep, 0, 0, 0>>
 
 JudgeHostTp(e) ==
     IF ~up THEN "env_traffic_while_down"
@@ -191,7 +197,10 @@ Judge(e) ==
             ELSE IF ~(e.setup /\ e.len = 8) /\ req # NoReq THEN "env_junk_data_packet_during_request"
             ELSE IF NonOpt(owed[0]) THEN "env_setup_while_answer_pending"
             ELSE "ok"
-      [] e.e = "tp"    -> JudgeHostTp(e)
+      [] e.e = "tpd"   -> IF ~up THEN "env_traffic_while_down" ELSE "ok"
+      [] e.e = "tp"    -> IF ViaWire /\ tpq = <<>> THEN "tp_report_not_owed"
+                          ELSE IF ViaWire /\ Head(tpq) # TpFields(e) THEN "tp_report_differs"
+                          ELSE JudgeHostTp(e)
       [] e.e = "itp"   -> IF ~up THEN "env_traffic_while_down" ELSE "ok"
       [] e.e = "lmp"   -> "ok"
       [] e.e = "w"     -> IF Len(e.b) \notin 1..WordLen \/ Len(cur) + Len(e.b) > MaxPkt THEN "env_word_shape"
@@ -209,7 +218,8 @@ Judge(e) ==
       [] e.e = "quiet" -> IF dpOpen.open THEN "dp_payload_missing"
                           ELSE IF \E p \in EPs : NonOpt(owed[p]) THEN "response_missing"
                           ELSE IF NonOpt(reqq) THEN "tp_requested_not_sent"
-                          ELSE IF rxq # <<>> THEN "rx_verdict_missing" ELSE "ok"
+                          ELSE IF rxq # <<>> THEN "rx_verdict_missing"
+                          ELSE IF tpq # <<>> THEN "tp_report_missing" ELSE "ok"
       [] e.e = "dhp_down" -> "ok"           \* a unit committed when the link dropped may still leave (ss_linklayer)
       [] OTHER -> "dev_unexpected_event"
 
@@ -278,6 +288,10 @@ ClearOpt(q) == SelectSeq(q, LAMBDA x : ~x.opt)
 
 Apply(e) ==
     /\ ev' = e
+    /\ tpq' = CASE e.e = "tpd" -> Append(tpq, TpFields(e))
+                [] e.e = "tp" /\ ViaWire -> Tail(tpq)
+                [] e.e \in {"down", "hot", "warm"} -> <<>>         \* (a packet delivered as the link drops may go unreported)
+                [] OTHER -> tpq
     /\ CASE e.e = "up" ->
             /\ up' = TRUE
             /\ Same(<<rstPending, addr, cfg, req, owed, reqq, dpOpen, rxq, pk, cur, infl, seqn, fc, lastItp,
@@ -353,7 +367,7 @@ Apply(e) ==
                                  lastItp, gAcc, gAcked, gAddrSet, nReq, nWire, nLost>>
 
 Init == /\ up = FALSE /\ rstPending = FALSE /\ addr = 0 /\ cfg = 0 /\ req = NoReq
-        /\ owed = Empty /\ reqq = <<>> /\ dpOpen = NoDp /\ rxq = <<>>
+        /\ owed = Empty /\ reqq = <<>> /\ dpOpen = NoDp /\ rxq = <<>> /\ tpq = <<>>
         /\ pk = <<>> /\ cur = <<>> /\ infl = FALSE /\ seqn = 0 /\ fc = FALSE /\ lastItp = 0
         /\ gAcc = <<>> /\ gAcked = <<>> /\ gAddrSet = FALSE /\ nReq = 0 /\ nWire = 0 /\ nLost = 0
         /\ ev = [e |-> "init"]
